@@ -37,6 +37,10 @@ Definition prim_feat (p : prim) : string :=
   | PNot | PBAnd | PBOr | PBEq | PBNe => "bool-op"
   | PCat | PLen | PSEq | PSNe => "string-op"
   | PLCons _ | PLFirst _ | PLRest _ | PLLen _ | PLEmptyQ _ | PLRev _ | PLEq _ | PLNe _ | PLNth _ => "list-op"
+  | PBox _ _ | PUnbox _ _ | PBump _ _ => "domain-op"
+  | PTwice _ _ => "category-default"
+  | PScale DA _ => "category-default"
+  | PScale DB _ => "default-overridden"
   end.
 
 (* (features, literal classes, node count) *)
